@@ -205,6 +205,15 @@ class Decl:
             if base is O.DBusObject and isinstance(case_id, int) and case_id % 2:
                 # an exported object may also be a container, and an empty one is falsy: dispatch must not care
                 attrs['__len__'] = lambda self_: 0
+            decorated = [k_ for k_, v_ in attrs.items() if callable(v_) and hasattr(v_, '_dbusMethod')]
+            if isinstance(case_id, int) and case_id % 5 == 3 and decorated:
+                # the decorator-bound implementations live in a plain helper class (not a DBusObject) that the exported
+                # class inherits from, before or after its DBusObject base
+                Mixin = type(cname + 'Mixin', (object,), {k_: attrs.pop(k_) for k_ in decorated})
+                self.mixins = getattr(self, 'mixins', 0) + 1
+                # (behind a DBusObject base only where that base is DBusObject itself: listed behind a base CLASS of the
+                # hierarchy the helper would come after that class in the MRO, and the base's bindings would rightly win)
+                return type(cname, (Mixin, base) if (case_id % 2 or base is not O.DBusObject) else (base, Mixin), attrs)
             return type(cname, (base,), attrs)
 
         split_bindings = bool(derived_ifs) and r.random() < 0.5 and not self.redeclared
@@ -311,6 +320,8 @@ def run_case(ctx, seed, idx):
     saved = dict(I.DBusInterface.knownInterfaces)
     try:
         d = Decl(r, idx)
+        if getattr(d, 'mixins', 0):
+            ctx.count('classes_with_bindings_in_a_plain_mixin', d.mixins)
         peer = clientfix.Peer().ready()
         conn = peer.proto
         if d.base_obj is not None:
